@@ -3,8 +3,16 @@
 //! trace validated by TLC against spec/Trace_UdpShell.tla (the UdpFlows handlers composed the way
 //! lib/src/udp.rs composes them: SelectBackend is answered at once by BackendResolved).
 //!
-//! Every datagram carries its identity ("<id>:" + padding); backends and clients are plain
-//! blocking sockets with deadlines. Conclusions of the form "nothing arrived" are only drawn after
+//! Besides the lock-step steps there are BATCHES: k datagrams (client datagrams of several sources,
+//! of new and of established flows, and backend replies for several flows) are put on the worker's
+//! sockets while the worker is held right before `poll` (the `loop_idle` verification hook calls
+//! back into this process on the worker thread: the callback simply blocks until the batch is on
+//! the wire), so that ONE drain pass of the listener socket holds all of them and both directions
+//! share one poll turn; some batches are sent without holding the worker (a burst racing with the
+//! event loop). What every backend / client received, in arrival order per socket, is recorded.
+//!
+//! Every datagram carries its identity ("<id>:" + padding; the trace says which source sent which
+//! id); backends and clients are plain blocking sockets with deadlines. Conclusions of the form "nothing arrived" are only drawn after
 //! `--quiet-ms` (default 700 ms; loopback delivery takes microseconds) and only where the spec
 //! itself predicts a drop.
 //!
@@ -13,18 +21,55 @@
 use std::collections::BTreeMap;
 use std::io::{BufWriter, Write};
 use std::net::{SocketAddr, UdpSocket};
+use std::sync::{Condvar, Mutex};
 use std::time::{Duration, Instant};
 
 use rand::{RngExt, SeedableRng, rngs::StdRng};
 use serde_json::{Value, json};
 use sozu_command_lib::proto::command::{
-    ActivateListener, Cluster, ListenerType, LoadBalancingAlgorithms, RequestUdpFrontend, UdpAffinityKey, UdpClusterConfig,
+    ActivateListener, Cluster, ListenerType, LoadBalancingAlgorithms, RequestUdpFrontend, Status, UdpAffinityKey, UdpClusterConfig,
     UdpListenerConfig, UpdateUdpListenerConfig, request::RequestType,
 };
 use vh::worker::{Worker, free_addr, ok};
 
 const CLUSTER: &str = "cluster-1";
 const T: Duration = Duration::from_secs(10);
+
+// ---- holding the worker right before poll (no signals: the loop_idle hook runs on the worker thread) ----
+
+struct Gate {
+    hold: bool,
+    parked: bool,
+}
+static GATE: Mutex<Gate> = Mutex::new(Gate { hold: false, parked: false });
+static GATE_CV: Condvar = Condvar::new();
+
+fn gate() -> std::sync::MutexGuard<'static, Gate> {
+    GATE.lock().unwrap_or_else(|p| p.into_inner())
+}
+
+fn install_gate() {
+    sozu_lib::verif::install(Box::new(|e| {
+        if e.kind != "loop_idle" || !e.thread.starts_with("c19-") {
+            return;
+        }
+        let mut g = gate();
+        if g.hold {
+            g.parked = true;
+            GATE_CV.notify_all();
+            while g.hold {
+                g = GATE_CV.wait(g).unwrap_or_else(|p| p.into_inner());
+            }
+            g.parked = false;
+            GATE_CV.notify_all();
+        }
+    }));
+}
+
+fn release() {
+    gate().hold = false;
+    GATE_CV.notify_all();
+}
 
 fn payload(id: i64, len: usize) -> Vec<u8> {
     let mut v = format!("{id}:").into_bytes();
@@ -72,8 +117,16 @@ struct Shell {
     front: SocketAddr,
     backends: Vec<UdpSocket>,
     clients: Vec<UdpSocket>,
+    /// the spec's name of every client: (ip number 1.., port)
+    client_ids: Vec<(i64, i64)>,
     quiet: Duration,
 }
+
+/// source addresses of the mock clients: two share an IP (per-IP affinity folds them into one flow)
+const CLIENT_IPS: [u8; 4] = [1, 1, 2, 3];
+
+/// what one receiving socket saw, in arrival order
+type Arrivals = Vec<Vec<Value>>;
 
 impl Shell {
     /// wait for one datagram on any backend socket: (backend index 1.., upstream port, bytes)
@@ -105,9 +158,79 @@ impl Shell {
             }
         }
     }
+
+    /// Hold the worker right before its next `poll`. Returns the id of the request that woke it.
+    fn pause(&mut self) -> Result<String, String> {
+        gate().hold = true;
+        // wake the loop so that it comes round to loop_idle now (it would within its poll timeout anyway)
+        let id = self.worker.send_type(RequestType::Status(Status {}));
+        let deadline = Instant::now() + Duration::from_secs(20);
+        let mut g = gate();
+        while !g.parked {
+            let left = deadline.saturating_duration_since(Instant::now());
+            if left.is_zero() || self.worker.is_finished() {
+                g.hold = false;
+                drop(g);
+                GATE_CV.notify_all();
+                return Err("the worker did not come round to loop_idle within 20 s".into());
+            }
+            g = GATE_CV.wait_timeout(g, left.min(Duration::from_millis(100))).unwrap_or_else(|p| p.into_inner()).0;
+        }
+        Ok(id)
+    }
+
+    /// Two command round trips: the first answer is written in a poll turn that started after
+    /// everything sent before was queued (so that turn, or an earlier one, drains it); the second
+    /// answer proves that turn is over.
+    fn settle(&mut self) -> Result<(), String> {
+        for _ in 0..2 {
+            let r = self.worker.request(RequestType::Status(Status {}), Duration::from_secs(30));
+            if r.is_none() && !self.worker.is_finished() {
+                return Err("Status not answered within 30 s".into());
+            }
+        }
+        Ok(())
+    }
+
+    /// Everything waiting on the backend and client sockets, per socket in arrival order. Stops when
+    /// `expect` datagrams arrived and nothing followed for 40 ms, or when nothing arrived for `quiet`.
+    fn collect(&self, expect: usize) -> (Arrivals, Arrivals) {
+        let mut at: Arrivals = vec![Vec::new(); self.backends.len()];
+        let mut cl: Arrivals = vec![Vec::new(); self.clients.len()];
+        let mut buf = [0u8; 4096];
+        let mut total = 0usize;
+        let mut last = Instant::now();
+        loop {
+            let mut any = false;
+            for (i, b) in self.backends.iter().enumerate() {
+                while let Ok((n, from)) = b.recv_from(&mut buf) {
+                    let (id, intact) = parse(&buf[..n]);
+                    at[i].push(json!({"up": from.port(), "id": id, "intact": intact}));
+                    any = true;
+                    total += 1;
+                }
+            }
+            for (i, c) in self.clients.iter().enumerate() {
+                while let Ok((n, _)) = c.recv_from(&mut buf) {
+                    let (id, intact) = parse(&buf[..n]);
+                    cl[i].push(json!({"id": id, "intact": intact}));
+                    any = true;
+                    total += 1;
+                }
+            }
+            if any {
+                last = Instant::now();
+                continue;
+            }
+            let idle = last.elapsed();
+            if (total >= expect && idle >= Duration::from_millis(40)) || idle >= self.quiet {
+                return (at, cl);
+            }
+        }
+    }
 }
 
-fn setup(name: &str, k: &Knobs, max_flows: u32, max_rx: u32, timeout: u32, n_clients: usize, quiet: Duration) -> Result<Shell, String> {
+fn setup(name: &str, k: &Knobs, max_flows: u32, max_rx: u32, timeout: u32, quiet: Duration) -> Result<Shell, String> {
     let mut worker = Worker::start_empty(name);
     let front = free_addr();
     let l = UdpListenerConfig {
@@ -135,57 +258,226 @@ fn setup(name: &str, k: &Knobs, max_flows: u32, max_rx: u32, timeout: u32, n_cli
     for i in 1..=2 {
         let addr = free_addr();
         let s = UdpSocket::bind(addr).map_err(|e| e.to_string())?;
-        s.set_read_timeout(Some(Duration::from_millis(5))).unwrap();
+        s.set_read_timeout(Some(Duration::from_millis(2))).unwrap();
         if !ok(&worker.request(RequestType::AddBackend(Worker::backend(CLUSTER, &format!("b{i}"), addr)), T)) {
             return Err("AddBackend failed".into());
         }
         backends.push(s);
     }
     let mut clients = Vec::new();
-    for _ in 0..n_clients {
-        let s = UdpSocket::bind("127.0.0.1:0").map_err(|e| e.to_string())?;
-        s.set_read_timeout(Some(Duration::from_millis(5))).unwrap();
+    let mut client_ids = Vec::new();
+    for ip in CLIENT_IPS {
+        let s = UdpSocket::bind(SocketAddr::from(([127, 0, 0, ip], 0))).map_err(|e| e.to_string())?;
+        s.set_read_timeout(Some(Duration::from_millis(2))).unwrap();
+        client_ids.push((ip as i64, s.local_addr().unwrap().port() as i64));
         clients.push(s);
     }
-    Ok(Shell { worker, front, backends, clients, quiet })
+    Ok(Shell { worker, front, backends, clients, client_ids, quiet })
 }
 
-/// One lock-step run. Returns (events written, worker panic message if any).
+#[derive(Clone, Debug)]
+enum Item {
+    /// a datagram of client (index) with that many bytes
+    C(usize, usize),
+    /// a datagram of backend (1..) to upstream port, foreign = not the port's peer
+    B(i64, i64, bool, usize),
+}
+
+fn bump(c: &mut BTreeMap<String, u64>, k: &str) {
+    *c.entry(k.to_string()).or_default() += 1;
+}
+
+/// One batch: everything is sent back to back (with the worker held before poll when `paused`), then
+/// the arrivals are collected. Returns the trace event.
+fn batch(sh: &mut Shell, run: u64, items: &[Item], paused: bool, next_id: &mut i64, max_rx: u32, with_port: bool,
+         upstreams: &mut Vec<(i64, i64)>, cover: &mut BTreeMap<String, u64>) -> Result<Value, String> {
+    let woke = if paused { Some(sh.pause()?) } else { None };
+    let mut sends = Vec::new();
+    let mut expect = 0usize;
+    for it in items {
+        *next_id += 1;
+        match *it {
+            Item::C(c, len) => {
+                let r = sh.clients[c].send_to(&payload(*next_id, len), sh.front);
+                if r.is_err() {
+                    release();
+                    return Err(format!("client send failed: {r:?}"));
+                }
+                if len <= max_rx as usize {
+                    expect += 1;
+                }
+                sends.push(json!({"k":"c","client":c as i64 + 1,"ip":sh.client_ids[c].0,"port":sh.client_ids[c].1,"backend":0,"up":0,
+                                  "foreign":false,"pl":{"id":*next_id,"len":len}}));
+            }
+            Item::B(b, u, foreign, len) => {
+                let dst = SocketAddr::new(sh.front.ip(), u as u16);
+                let _ = sh.backends[b as usize - 1].send_to(&payload(*next_id, len), dst);
+                if !foreign {
+                    expect += 1;
+                }
+                sends.push(json!({"k":"b","client":0,"ip":0,"port":0,"backend":b,"up":u,"foreign":foreign,"pl":{"id":*next_id,"len":len}}));
+            }
+        }
+    }
+    if let Some(id) = woke {
+        release();
+        let _ = sh.worker.wait_for(&id, Duration::from_secs(30));
+    }
+    sh.settle()?;
+    let (at, cl) = sh.collect(expect);
+
+    // coverage of the schedule classes, from what was observed (projection only; nothing is decided here)
+    let known: Vec<i64> = upstreams.iter().map(|x| x.0).collect();
+    let mut where_: BTreeMap<i64, (i64, i64)> = BTreeMap::new(); // datagram id -> (backend, upstream port)
+    for (b, q) in at.iter().enumerate() {
+        for o in q {
+            where_.insert(o["id"].as_i64().unwrap(), (b as i64 + 1, o["up"].as_i64().unwrap()));
+        }
+    }
+    let mode = if with_port { "port" } else { "ip" };
+    let (mut opened, mut ups_seen, mut backends_seen): (Vec<i64>, Vec<i64>, Vec<i64>) = (Vec::new(), Vec::new(), Vec::new());
+    let (mut c_delivered, mut hit_new_est, mut hit_same) = (0, false, false);
+    for s in &sends {
+        if s["k"] != "c" {
+            continue;
+        }
+        if let Some(&(b, u)) = where_.get(&s["pl"]["id"].as_i64().unwrap()) {
+            c_delivered += 1;
+            if !known.contains(&u) && !opened.contains(&u) {
+                opened.push(u);
+            } else if known.contains(&u) && !opened.is_empty() {
+                hit_new_est = true; // a datagram of an established flow behind the first datagram of a new flow
+            }
+            if ups_seen.contains(&u) {
+                hit_same = true;
+            }
+            ups_seen.push(u);
+            if !backends_seen.contains(&b) {
+                backends_seen.push(b);
+            }
+        }
+    }
+    let replied: Vec<usize> = cl.iter().enumerate().filter(|(_, q)| !q.is_empty()).map(|(i, _)| i).collect();
+    bump(cover, if paused { "batch:held" } else { "batch:burst" });
+    if hit_new_est {
+        bump(cover, &format!("batch:new-then-established:{mode}"));
+        if paused {
+            bump(cover, "batch:new-then-established:held");
+        }
+    }
+    if hit_same {
+        bump(cover, "batch:same-flow-repeated");
+    }
+    if backends_seen.len() > 1 {
+        bump(cover, "batch:two-backends");
+    }
+    if replied.len() > 1 {
+        bump(cover, "batch:replies-to-several-clients");
+    }
+    if c_delivered > 0 && !replied.is_empty() {
+        bump(cover, "batch:both-directions");
+    }
+    for (b, q) in at.iter().enumerate() {
+        for o in q {
+            let u = o["up"].as_i64().unwrap();
+            if !upstreams.iter().any(|x| x.0 == u) {
+                upstreams.push((u, b as i64 + 1));
+            }
+        }
+    }
+    Ok(json!({"ev":"batch","run":run,"paused":paused as i64,"sends":sends,"at":at,"cl":cl}))
+}
+
+/// One run. Returns (events written, worker panic message if any).
 fn one_run(rng: &mut StdRng, run: u64, steps: usize, w: &mut BufWriter<std::fs::File>, cover: &mut BTreeMap<String, u64>, quiet: Duration,
            flips: bool) -> Result<(u64, Option<String>), String> {
-    // odd runs start in the configuration where flows can share a backend (3 per-port flows over 2
-    // backends): the case where a shell that picked the upstream socket by destination would alias
+    // odd runs start in the configuration where flows can share a backend (4 per-port flows over 2
+    // backends): the case where a shell that picked the upstream socket by destination would alias;
+    // even runs start with per-IP affinity (3 flows for 4 clients) and random teardown contracts
     let crowded = run % 2 == 1;
     let mut k = Knobs {
-        with_port: crowded || rng.random_bool(0.6),
+        with_port: crowded,
         responses: if crowded { 0 } else { [0, 0, 2][rng.random_range(0..3)] },
         requests: if crowded { 0 } else { [0, 0, 3][rng.random_range(0..3)] },
     };
-    let mut cap: u32 = if crowded { 3 } else { rng.random_range(1..4) };
+    let mut cap: u32 = if crowded { 4 } else { rng.random_range(3..5) };
     let max_rx: u32 = 48;
     let timeout = 120u32;
-    let mut sh = setup(&format!("c19-{run}"), &k, cap, max_rx, timeout, 3, quiet)?;
+    let mut sh = setup(&format!("c19-{run}"), &k, cap, max_rx, timeout, quiet)?;
+    let nc = sh.clients.len();
     let mut events = 0u64;
-    let mut ev = |w: &mut BufWriter<std::fs::File>, v: Value| {
+    let ev = |w: &mut BufWriter<std::fs::File>, v: Value| {
         writeln!(w, "{}", v).expect("write trace");
     };
     ev(w, json!({"ev":"reset","run":run,"cluster":cfg_t(&k, timeout),"maxFlows":cap,"maxRx":max_rx,
-                 "clients": sh.clients.iter().map(|c| c.local_addr().unwrap().port()).collect::<Vec<_>>() }));
+                 "clients": sh.client_ids.iter().map(|c| json!({"ip":c.0,"port":c.1})).collect::<Vec<_>>() }));
     events += 1;
     let mut next_id = 0i64;
     // upstream ports seen at the backends, newest last: (port, backend)
     let mut upstreams: Vec<(i64, i64)> = Vec::new();
-    let mut bump = |c: &mut BTreeMap<String, u64>, k: &str| *c.entry(k.to_string()).or_default() += 1;
     for step in 0..steps {
         if sh.worker.is_finished() {
             break;
         }
-        let warmup = crowded && step < 2 * sh.clients.len();
-        let roll = if warmup { 0 } else { rng.random_range(0..100u32) };
+        // steps 0, 1: two flows are opened in lock step (clients of different IPs: two flows in both
+        // affinity modes); step 2: the directed batch - the first datagram of a new flow (the client of the
+        // third IP) with datagrams of the established flows (and of the other port of the first IP: a new
+        // flow per port, the first flow per IP) behind it, the worker held so that one drain pass has all;
+        // step 3: replies for all flows and client datagrams in one poll turn
+        let roll = match step {
+            0 | 1 => 40,
+            2 => 200,
+            3 => 201,
+            _ => rng.random_range(0..100u32),
+        };
         match roll {
-            0..50 => {
-                // a client datagram; sometimes empty-ish (too long for max_rx)
-                let c = if warmup { step % sh.clients.len() } else { rng.random_range(0..sh.clients.len()) };
+            200 | 201 | 0..38 => {
+                let mut items = Vec::new();
+                let len = |rng: &mut StdRng| rng.random_range(8..=max_rx as usize);
+                if roll == 200 {
+                    let mut rest = vec![0usize, 2, 1];
+                    for i in (1..rest.len()).rev() {
+                        rest.swap(i, rng.random_range(0..=i));
+                    }
+                    items.push(Item::C(3, len(rng)));
+                    for c in rest {
+                        items.push(Item::C(c, len(rng)));
+                    }
+                    items.push(Item::C(3, len(rng)));
+                    items.push(Item::C([0usize, 2][rng.random_range(0..2)], len(rng)));
+                } else if roll == 201 {
+                    // both directions in one poll turn: a reply for every flow seen so far, client datagrams between them
+                    for (j, &(u, owner)) in upstreams.clone().iter().enumerate() {
+                        items.push(Item::B(owner, u, false, len(rng)));
+                        items.push(Item::C([2usize, 3, 0, 1][j % 4], len(rng)));
+                    }
+                } else {
+                    for _ in 0..rng.random_range(2..=6) {
+                        if !upstreams.is_empty() && rng.random_bool(0.35) {
+                            let (u, owner) = upstreams[rng.random_range(0..upstreams.len())];
+                            let foreign = rng.random_bool(0.15);
+                            items.push(Item::B(if foreign { 3 - owner } else { owner }, u, foreign, len(rng)));
+                        } else {
+                            let l = if rng.random_bool(0.08) { max_rx as usize + 5 } else { len(rng) };
+                            items.push(Item::C(rng.random_range(0..nc), l));
+                        }
+                    }
+                }
+                let paused = roll >= 200 || rng.random_bool(0.75);
+                match batch(&mut sh, run, &items, paused, &mut next_id, max_rx, k.with_port, &mut upstreams, cover) {
+                    Ok(e) => {
+                        ev(w, e);
+                        events += 1;
+                    }
+                    // a worker that died is data (its panic is reported below), anything else a tool problem
+                    Err(_) if sh.worker.is_finished() => break,
+                    Err(e) => return Err(e),
+                }
+            }
+            38..58 => {
+                // a client datagram; sometimes too long for max_rx
+                let warmup = step < 2;
+                let c = if warmup { [0usize, 2][step] } else { rng.random_range(0..nc) };
                 next_id += 1;
                 let len = if !warmup && rng.random_bool(0.1) { max_rx as usize + 5 } else { rng.random_range(8..=max_rx as usize) };
                 let bytes = payload(next_id, len);
@@ -204,11 +496,11 @@ fn one_run(rng: &mut StdRng, run: u64, steps: usize, w: &mut BufWriter<std::fs::
                 bump(cover, if got.is_some() { "c2b:delivered" } else { "c2b:nothing" });
                 // a second copy must never follow
                 let dup = sh.backend_recv(Duration::from_millis(30)).is_some() as i64;
-                ev(w, json!({"ev":"c2b","run":run,"client":c as i64 + 1,"port":sh.clients[c].local_addr().unwrap().port(),
+                ev(w, json!({"ev":"c2b","run":run,"client":c as i64 + 1,"ip":sh.client_ids[c].0,"port":sh.client_ids[c].1,
                              "pl":{"id":next_id,"len":len},"obs":obs,"dup":dup}));
                 events += 1;
             }
-            50..80 => {
+            58..72 => {
                 // a backend replies on one of the upstream sockets it has seen (usually its own)
                 if upstreams.is_empty() {
                     continue;
@@ -234,7 +526,7 @@ fn one_run(rng: &mut StdRng, run: u64, steps: usize, w: &mut BufWriter<std::fs::
                 ev(w, json!({"ev":"b2c","run":run,"backend":b,"up":u,"foreign":foreign,"pl":{"id":next_id,"len":len},"obs":obs,"dup":dup}));
                 events += 1;
             }
-            80..90 => {
+            72..84 => {
                 // reconfigure the cluster's UDP knobs (optionally the affinity key)
                 if flips && rng.random_bool(0.4) {
                     k.with_port = !k.with_port;
@@ -249,8 +541,8 @@ fn one_run(rng: &mut StdRng, run: u64, steps: usize, w: &mut BufWriter<std::fs::
                 ev(w, json!({"ev":"cfg","run":run,"what":"SetCluster","cfg":cfg_t(&k, timeout)}));
                 events += 1;
             }
-            90..97 => {
-                cap = rng.random_range(1..4);
+            84..93 => {
+                cap = rng.random_range(1..5);
                 let r = sh.worker.request(RequestType::UpdateUdpListener(UpdateUdpListenerConfig {
                     address: sh.front.into(), max_flows: Some(cap), ..Default::default() }), T);
                 if !ok(&r) && !sh.worker.is_finished() {
@@ -271,7 +563,7 @@ fn one_run(rng: &mut StdRng, run: u64, steps: usize, w: &mut BufWriter<std::fs::
                 ev(w, json!({"ev":"cfg","run":run,"what":"SetCluster","cfg":[0, 0, 0, 0, 30, 30, 0, 0]}));
                 events += 1;
                 // one datagram while unrouted: must go nowhere
-                let c = rng.random_range(0..sh.clients.len());
+                let c = rng.random_range(0..nc);
                 next_id += 1;
                 let bytes = payload(next_id, 16);
                 sh.clients[c].send_to(&bytes, sh.front).map_err(|e| e.to_string())?;
@@ -280,7 +572,7 @@ fn one_run(rng: &mut StdRng, run: u64, steps: usize, w: &mut BufWriter<std::fs::
                     None => json!({"got":0}),
                     Some((b, u, data)) => json!({"got":1,"backend": b, "up": u, "id": parse(data).0, "intact": parse(data).1}),
                 };
-                ev(w, json!({"ev":"c2b","run":run,"client":c as i64 + 1,"port":sh.clients[c].local_addr().unwrap().port(),
+                ev(w, json!({"ev":"c2b","run":run,"client":c as i64 + 1,"ip":sh.client_ids[c].0,"port":sh.client_ids[c].1,
                              "pl":{"id":next_id,"len":16},"obs":obs,"dup":0}));
                 events += 1;
                 let r2 = sh.worker.request(RequestType::AddUdpFrontend(f), T);
@@ -294,6 +586,7 @@ fn one_run(rng: &mut StdRng, run: u64, steps: usize, w: &mut BufWriter<std::fs::
         }
     }
     // stop the worker: HardStop tears every flow down and ends the thread
+    release();
     if !sh.worker.is_finished() {
         let _ = sh.worker.send_type(RequestType::HardStop(Default::default()));
     }
@@ -306,6 +599,7 @@ fn one_run(rng: &mut StdRng, run: u64, steps: usize, w: &mut BufWriter<std::fs::
 
 fn main() {
     vh::util::quiet_panics();
+    install_gate();
     let args: Vec<String> = std::env::args().collect();
     let arg = |name: &str, def: &str| -> String {
         args.iter().position(|a| a == name).and_then(|i| args.get(i + 1)).cloned().unwrap_or(def.to_string())
